@@ -15,6 +15,8 @@ package main
 import (
 	"bytes"
 	"context"
+	"crypto/ecdh"
+	"crypto/ed25519"
 	"encoding/binary"
 	"fmt"
 	"math/rand"
@@ -284,6 +286,89 @@ func goAdnlCoalesced(a []string) string {
 		[]string{fmt.Sprintf("%d %s waiting", len(all), packetsDigest(all))})
 }
 
+// ---- keys.go, everything except the scalar multiplication ------------------------------------------------------------
+
+// exAdnlKeyID: Address.hash
+func exAdnlKeyID(a []string) string {
+	b, err := liteclient.VerifAddressHash(h.MustUnHex(a[0]))
+	if err != nil {
+		return "err"
+	}
+	return "ok " + h.Hex(b)
+}
+
+// exAdnlScalar: the X25519 scalar sharedKey derives from an Ed25519 private key (SHA-512 of the seed, clamped)
+func exAdnlScalar(a []string) string {
+	return "ok " + h.Hex(liteclient.VerifX25519Scalar(ed25519.NewKeyFromSeed(h.MustUnHex(a[0]))))
+}
+
+// exAdnlToMont: does tongo's sharedKey accept this peer key, and the Montgomery u-coordinate (computed with math/big,
+// independently of tongo and of the model) it must have used
+func exAdnlToMont(a []string) string {
+	pub := h.MustUnHex(a[0])
+	priv := ed25519.NewKeyFromSeed(bytes.Repeat([]byte{7}, 32))
+	if _, err := liteclient.VerifSharedKey(priv, pub); err != nil {
+		return "rejected"
+	}
+	u, err := edPubToMontgomery(pub)
+	if err != nil {
+		return "rejected"
+	}
+	return "ok " + h.Hex(u)
+}
+
+// goAdnlSharedKey: sharedKey(priv, pub) is X25519(scalar sharedKey derives from priv, Montgomery form of pub) with the
+// multiplication done by crypto/ecdh and the conversion by math/big
+func goAdnlSharedKey(a []string) string {
+	priv := ed25519.NewKeyFromSeed(h.MustUnHex(a[0]))
+	peer := newServerKey(h.MustUnHex(a[1]))
+	got, err := liteclient.VerifSharedKey(priv, peer.pub)
+	if err != nil {
+		return "FAIL sharedkey-error " + err.Error()
+	}
+	u, err := edPubToMontgomery(peer.pub)
+	if err != nil {
+		return "FAIL tomont " + err.Error()
+	}
+	sk, err := ecdh.X25519().NewPrivateKey(liteclient.VerifX25519Scalar(priv))
+	if err != nil {
+		return "FAIL ecdh " + err.Error()
+	}
+	pk, err := ecdh.X25519().NewPublicKey(u)
+	if err != nil {
+		return "FAIL ecdh " + err.Error()
+	}
+	want, err := sk.ECDH(pk)
+	if err != nil {
+		return "FAIL ecdh " + err.Error()
+	}
+	if !bytes.Equal(got, want) {
+		return "FAIL sharedkey-is-not-x25519-of-scalar-and-montgomery-form"
+	}
+	return "ok"
+}
+
+// goAdnlNewKeys: newKeys sends an Ed25519 PUBLIC key whose owner shares the secret it returns: the server, from its
+// own private key and that public key, computes the same value
+func goAdnlNewKeys(a []string) string {
+	srv := newServerKey(h.MustUnHex(a[0]))
+	pub, shared, err := liteclient.VerifNewKeys(srv.pub)
+	if err != nil {
+		return "FAIL newkeys-error " + err.Error()
+	}
+	if len(pub) != 32 || len(shared) != 32 {
+		return "FAIL newkeys-lengths"
+	}
+	want, err := srv.shared(pub)
+	if err != nil {
+		return "FAIL newkeys-public-not-a-point " + err.Error()
+	}
+	if !bytes.Equal(want, shared) {
+		return "FAIL newkeys-public-key-does-not-match-shared-secret"
+	}
+	return "ok"
+}
+
 var specialMagics = [][]byte{
 	{0x03, 0xfb, 0x69, 0xdc}, // tcp.pong
 	{0x9a, 0x2b, 0x08, 0x4d}, // tcp.ping
@@ -377,6 +462,40 @@ func goAdnlMagics(a []string) string {
 
 // genC11Extra is called at the end of genC11.
 func genC11Extra(g *h.G) {
+	for i := 0; i < g.Scale(150, 2000); i++ {
+		g.Emit("adnl.keyid", h.Hex(g.Bytes(32)))
+		g.Emit("adnl.scalar", h.Hex(g.Bytes(32)))
+		var pub []byte
+		switch g.Rng.Intn(4) {
+		case 0: // an arbitrary string: about half of them are not points
+			pub = g.Bytes(32)
+			g.Count("tomont_random_string")
+		case 1: // points of small order and other special encodings
+			pub = make([]byte, 32)
+			switch g.Rng.Intn(4) {
+			case 0:
+				pub[0] = 1 // y = 1: the neutral element
+			case 1: // y = -1
+				for j := range pub {
+					pub[j] = 0xff
+				}
+				pub[0], pub[31] = 0xec, 0x7f
+			case 2: // y = 0
+			default:
+				pub[0] = byte(2 + g.Rng.Intn(40))
+			}
+			g.Count("tomont_special")
+		default:
+			pub = newServerKey(g.Bytes(32)).pub
+			if g.Rng.Intn(2) == 0 {
+				pub[31] ^= 0x80 // the other sign of x: same u
+			}
+			g.Count("tomont_public_key")
+		}
+		g.Emit("adnl.tomont", h.Hex(pub))
+		g.Emit("go.adnl.sharedkey", h.Hex(g.Bytes(32)), h.Hex(g.Bytes(32)))
+		g.Emit("go.adnl.newkeys", h.Hex(g.Bytes(32)))
+	}
 	for i := 0; i < g.Scale(40, 400); i++ {
 		seed := g.Rng.Int31()
 		g.NonTrivial(fmt.Sprintf("mg/%d", seed))
